@@ -207,6 +207,14 @@ func runCrash(a []string) {
 				delete(synced, names)
 			case "create":
 				synced[names] = 0
+			case "write":
+				// the first append to a file this process has neither created nor fsynced: what it held before
+				// (written and closed by an earlier session) is on stable storage, the new bytes are not
+				if _, ok := synced[names]; !ok {
+					if fi, err := os.Stat(filepath.Join(dir, names)); err == nil {
+						synced[names] = fi.Size() - n
+					}
+				}
 			}
 			sc := map[string]int64{}
 			for k, v := range synced {
